@@ -21,6 +21,9 @@ CLAIMED = {
  "C19": dict(cat="other", technique="AST->QF_BVFP translation of quality_profile_percentage solved by z3 and cvc5 (exact, bounded totals) + real/int relaxation (unbounded totals) + CrossHair on the verdict branches",
              text="Each clause of the statement is an unsat query over ALL profiles with total <= 2^B (B=6 quick, 10 thorough) against the bit-precise float semantics of the function's current AST, cross-checked by two solvers and by concrete evaluation on the repository's test inputs; the verdict rule is decided for all integer percentage tuples.",
              ref="DESIGN.md 3/C19"),
+ "C18": dict(cat="other", technique="CrossHair on the real delta/table/Markdown/findings code with figures as unbounded solver variables behind opaque format markers; replay with plain ints through a real rich Console",
+             text="Bounded in shape (two languages, one figure column symbolic per query, five language-set scenarios, 0..25 findings), unbounded in every figure: shown value == stored value and annotation <=> current != previous with the exact difference, identically in text and Markdown.",
+             ref="DESIGN.md 3/C18"),
 }
 NA = {}
 def main():
